@@ -192,7 +192,7 @@ impl<'a> W<'a> {
         self.numtok();
     }
     fn strlit(&mut self) -> String {
-        let body = *self.t.pick(&["VDD", "power1 VDD", "a b c", "", "x=1;y=2", "#notacomment", "END"]);
+        let body = *self.t.pick(&["VDD", "power1 VDD", "a b c", "", "x=1;y=2", "#notacomment", "END", "two\nlines", "ends in blank \nnext\t\nlast ", "cr\r\nlf", " lead and trail "]);
         format!("\"{}\"", body)
     }
 
@@ -416,8 +416,11 @@ impl<'a> W<'a> {
         self.semi();
         let mut width_done = false;
         for _ in 0..self.t.draw(5) {
+            let stmt_start = self.out.len();
+            let mut repeatable = false;
             match self.t.draw(6) {
                 0 | 1 | 2 => {
+                    repeatable = true;
                     let k = self.t.draw(3);
                     self.kw(["RECT", "POLYGON", "PATH"][k as usize]);
                     self.mask();
@@ -425,8 +428,11 @@ impl<'a> W<'a> {
                     if it {
                         self.kw("ITERATE");
                     }
+                    // one polygon / path in 40 has hundreds of vertices (statements far longer than any line limit)
+                    let many = k != 0 && self.t.chance(1, 40);
                     let npts = match k {
                         0 => 2,
+                        _ if many => self.t.range(100, 400),
                         1 => self.t.range(3, 6),
                         _ => self.t.range(2, 4),
                     };
@@ -446,6 +452,7 @@ impl<'a> W<'a> {
                     self.semi();
                 }
                 3 => {
+                    repeatable = true;
                     self.kw("VIA");
                     self.point();
                     let v = self.name("via");
@@ -459,6 +466,11 @@ impl<'a> W<'a> {
                     self.semi();
                 }
                 _ => {}
+            }
+            // the same statement once more, verbatim (two identical shapes in a row are legal and distinct)
+            if repeatable && self.t.chance(1, 8) {
+                let again = self.out[stmt_start..].to_string();
+                self.out.push_str(&again);
             }
         }
     }
